@@ -15,10 +15,12 @@
 package sorted_set
 
 import (
+	"encoding/json"
 	"errors"
 	"math"
 	"math/rand"
 	"slices"
+	"strconv"
 	"strings"
 	"unsafe"
 
@@ -484,4 +486,46 @@ func Intersect(aggregate string, setParams ...SortedSetParam) *SortedSet {
 
 		return NewSortedSet(params)
 	}
+}
+
+// TypeName identifies the sorted set type in the JSON encoding of stored values (snapshots, AOF preamble).
+func (s *SortedSet) TypeName() string {
+	return "zset"
+}
+
+// sortedSetMemberJSON is the encoded form of one member. The score is written as a string so that
+// -inf and +inf, which JSON numbers cannot express, survive.
+type sortedSetMemberJSON struct {
+	Value internal.BytesString `json:"Value"`
+	Score string               `json:"Score"`
+}
+
+// MarshalJSON encodes the sorted set as the list of its members and scores.
+func (s *SortedSet) MarshalJSON() ([]byte, error) {
+	members := make([]sortedSetMemberJSON, 0, len(s.members))
+	for _, m := range s.GetAll() {
+		members = append(members, sortedSetMemberJSON{
+			Value: internal.BytesString(m.Value),
+			Score: strconv.FormatFloat(float64(m.Score), 'g', -1, 64),
+		})
+	}
+	return json.Marshal(members)
+}
+
+func init() {
+	internal.RegisterJSONCompositeType("zset", func(data []byte) (interface{}, error) {
+		var encoded []sortedSetMemberJSON
+		if err := json.Unmarshal(data, &encoded); err != nil {
+			return nil, err
+		}
+		members := make([]MemberParam, 0, len(encoded))
+		for _, m := range encoded {
+			score, err := strconv.ParseFloat(m.Score, 64)
+			if err != nil {
+				return nil, err
+			}
+			members = append(members, MemberParam{Value: Value(m.Value), Score: Score(score)})
+		}
+		return NewSortedSet(members), nil
+	})
 }
